@@ -15,6 +15,7 @@ import (
 	"net/url"
 	"os"
 	"path/filepath"
+	"perkeep.org/pkg/blobserver"
 	"sort"
 	"strings"
 	"time"
@@ -301,9 +302,20 @@ func c18Exercise(c *ctx, s *c18server) {
 	for i := 0; i < 9; i++ {
 		contents = append(contents, []byte(fmt.Sprintf("blob %d of %s seed %d", i, s.name, c.seed)))
 	}
+	if s.name == "memory+memory" { // the size limit end to end: one byte below the limit and exactly at it, through the client
+		for _, n := range []int{blobserver.MaxBlobSize - 1, blobserver.MaxBlobSize} {
+			big := bytes.Repeat([]byte{byte(n)}, n)
+			copy(big, fmt.Sprintf("%d bytes for %s seed %d", n, s.name, c.seed))
+			contents = append(contents, big)
+		}
+	}
 	for i, content := range contents {
 		r := blob.RefFromBytes(content)
-		switch i % 3 {
+		how := i % 3
+		if len(content) >= blobserver.MaxBlobSize-1 {
+			how = 0 // the client (a multipart upload)
+		}
+		switch how {
 		case 0:
 			_, err := s.cl.Upload(ctxb, &client.UploadHandle{BlobRef: r, Size: uint32(len(content)), Contents: bytes.NewReader(content)})
 			if err != nil {
@@ -330,7 +342,7 @@ func c18Exercise(c *ctx, s *c18server) {
 		}
 		put(content)
 		c.rep.SpecChecks++
-		c.count("uploads", []string{"client", "PUT", "multipart"}[i%3])
+		c.count("uploads", []string{"client", "PUT", "multipart"}[how])
 	}
 	// a duplicate upload
 	s.cl.Upload(ctxb, client.NewUploadHandleFromString("x"))
